@@ -1214,7 +1214,18 @@ def _split(repo, col):
         incs = [n for st in wl.body for n in ast.walk(st) if isinstance(n, ast.AugAssign) and isinstance(n.op, ast.Add)]
         col.check(any(isinstance(n.value, ast.Constant) and n.value.value == 1 for n in incs), R, fi, "the number of parts grows by one per iteration", "",
                   "the number of sub-branches is not incremented by one", node=wl)
-    ts = [s_ for s_ in ex.stores if s_.kind == "aug" and T.find(s_.value, lambda x: x.op == "item" and x.name == 1) is not None]
+    # (what the list of types grows by: `types += X`, `types.extend(X)`)
+    class _Ext:
+        def __init__(self, value, node):
+            self.value, self.node = value, node
+    ts = [_Ext(s_.value, s_.node) for s_ in ex.stores if s_.kind == "aug" and T.find(s_.value, lambda x: x.op == "item" and x.name == 1) is not None]
+    for s_ in ex.stores:
+        if s_.kind == "mcall" and s_.key is not None and s_.key.name == "extend" and s_.value is not None and len(s_.value.args) == 2:
+            x_ = s_.value.args[1]
+            has_type = T.find(x_, lambda x: x.op == "item" and x.name == 1) is not None
+            is_parts = T.find(x_, lambda x: x.op == "call" and x.name == "_split_branch_equally") is not None    # the list of parts, not of types
+            if has_type and not is_parts:
+                ts.append(_Ext(x_, s_.node))
     ok = bool(ts) and ts[0].value.op == "binop" and ts[0].value.name == "*"
     col.check(ok, R, fi, "every part inherits the type of its section (type repeated once per part)", "[type] * num_subbranches",
               f"types are extended by {ts[0].value.short(80) if ts else None}", node=ts[0].node if ts else fi.node)
